@@ -370,12 +370,14 @@ def gen_file(rng, fi, max_frames=40, names_pool=None):
     return {'name': f'FILE  .{fi + 1:03d}', 'tables': tables, 'dfsr': d, 'per_record': per_record, 'x_words': x_words, 'frames': frames}
 
 
-def gen_model(rng, max_frames=40, names_pool=None, max_files=2):
+def gen_model(rng, max_frames=40, names_pool=None, max_files=2, small_pr=False):
     rec = rng.chance(0.25)
     filen = rng.pick([None, None, None, 1, 7])
     chk = rng.chance(0.2)
     tl = (2 if rec else 0) + (2 if filen is not None else 0) + (2 if chk else 0)
     prlen = rng.wpick([(3, 1024), (2, rng.pick([256, 512, 4096, 8192])), (2, rng.randrange(4 + tl + 40, 400)), (1, rng.randrange(4 + tl + 8, 64)), (1, 65535)])
+    if small_pr:
+        prlen = rng.randrange(4 + tl + 12, 4 + tl + 40)      # hundreds of physical records even for a small file
     tif = rng.wpick([(4, 'none'), (3, 'normal'), (1, 'reversed')])
     pre = rng.pick([[], [], ['tape'], ['reel', 'tape'], ['reel']])
     nfiles = rng.wpick([(6, 1), (2, max_files)])
